@@ -2,7 +2,7 @@
 from __future__ import annotations
 
 from harness.common import LINE_TERMINATORS, VERSIONS, Reject, Violation, exc_class, listen_step, run, stub_repr
-from harness.stepkit import World
+from harness.stepkit import draw_id, World
 from spec import step_model as M
 
 PROPERTY = "C03"
@@ -77,14 +77,14 @@ def sym_wellformed(inp, part):
     v, known, cmd = part["version"], part["known"], part["cmd"]
     w = World(inp, v, known=known)
     lo, hi = part["idlo"], part["idhi"]
-    n = inp.int("n", lo, hi)
+    n = draw_id(inp, "n", part, lo, hi)
     shape = inp.pick("shape", 3)  # node unknown / known / known + child
     if shape >= 1:
         w.add_node(n, sleeping=inp.bool("sleeping"))
-    cc = inp.int("cc", lo, min(hi, 254))
+    cc = draw_id(inp, "cc", part, lo, min(hi, 254), child=True)
     if shape == 2:
         w.add_child(n, cc)
-    c = 255 if inp.bool("sys") else inp.int("c", lo, hi)
+    c = 255 if inp.bool("sys") else draw_id(inp, "c", part, lo, hi)
     if cmd == 3 or cmd == 4:
         if c != 255:
             raise Reject
